@@ -12,6 +12,7 @@ import (
 	"os"
 	"os/exec"
 	"path/filepath"
+	"regexp"
 	"sort"
 	"strings"
 
@@ -60,11 +61,23 @@ func runE2E(bin, tmp, fakeDir, repoSum string, seed int64, count int, pkgs map[s
 		if k%3 == 0 {
 			fl.Enable, fl.Disable, fl.Go = "<all>", "", ""
 		}
+		if k%4 == 1 {
+			// the rule comes from the command line (-e): a text of the pool that loads
+			for {
+				et := eTexts[rng.Intn(len(eTexts))]
+				if !et.broken {
+					fl.E = et.text
+					break
+				}
+			}
+			fl.Rules = ""
+			fl.Enable, fl.Disable = eEnable(rng)
+		}
 		res.Flags = fl
 
 		// expected: the in-process analyzer under the same flags
 		setFlag("rules", fl.Rules)
-		setFlag("e", "")
+		setFlag("e", fl.E)
 		setFlag("enable", fl.Enable)
 		setFlag("disable", fl.Disable)
 		setFlag("go", fl.Go)
@@ -86,6 +99,9 @@ func runE2E(bin, tmp, fakeDir, repoSum string, seed int64, count int, pkgs map[s
 
 		// flags at their default value are left off the command line, so that a changed default shows
 		args := []string{"-rules", fl.Rules}
+		if fl.E != "" {
+			args = []string{"-e", fl.E}
+		}
 		if fl.Enable != "<all>" {
 			args = append(args, "-enable", fl.Enable)
 		}
@@ -121,7 +137,7 @@ func runE2E(bin, tmp, fakeDir, repoSum string, seed int64, count int, pkgs map[s
 				continue
 			}
 			// diagnostics look like /abs/file.go:LINE:COL: message
-			if strings.HasPrefix(line, "/") && strings.Count(line, ":") >= 3 {
+			if e2eDiagLine.MatchString(line) {
 				res.Observed = append(res.Observed, line)
 			} else {
 				res.Stderr += line + "\n"
@@ -139,7 +155,11 @@ func runE2E(bin, tmp, fakeDir, repoSum string, seed int64, count int, pkgs map[s
 		}
 		enc.Encode(res)
 	}
+	setFlag("e", "")
 }
+
+// /abs/file.go:LINE:COL: message -- positions under a //line directive without a column have no COL
+var e2eDiagLine = regexp.MustCompile(`^/[^:]+:\d+(:\d+)?: `)
 
 func dedup(xs []string) []string {
 	var out []string
